@@ -331,7 +331,8 @@ func (g *Gen) node(depth int) *Node {
 			return n
 		case c < g.P.PStruct+g.P.PSlice+g.P.PPtr:
 			n := &Node{Kind: KPtr, Elem: g.node(depth + 1)}
-			if n.Elem.Kind == KPtr || n.Elem.Kind == KPre { // keep pointer chains to depth 1, no Preprocess behind pointers
+			if n.Elem.Kind == KPre || (n.Elem.Kind == KPtr && (n.Elem.Elem.Kind == KPtr || !r.P(60))) {
+				// pointer chains up to depth 2 (a pointer to a pointer), no Preprocess behind pointers
 				n.Elem = g.prim(Pick(r, g.P.Kinds))
 			}
 			if IsPrim(n.Elem.Kind) && n.Elem.Coercer != "" && !n.Elem.Named && r.P(50) {
